@@ -290,6 +290,7 @@ class RealFloat___add__(Contract):
     returns = 'RealFloat | float'
     properties = ['C05']
     split = ['other']
+    options = {'solve_eqs': True}
 
     def post(self, other, result):
         r = result
@@ -326,6 +327,7 @@ class RealFloat___mul__(Contract):
     returns = 'RealFloat | float'
     properties = ['C05']
     split = ['other']
+    options = {'solve_eqs': True}
 
     def post(self, other, result):
         r = result
@@ -364,6 +366,7 @@ class RealFloat___radd__(Contract):
     returns = 'RealFloat | float'
     properties = ['C05']
     split = ['other']
+    options = {'solve_eqs': True}
 
     def post(self, other, result):
         r = result
@@ -395,6 +398,7 @@ class RealFloat___sub__(Contract):
     returns = 'RealFloat | float'
     properties = ['C05']
     split = ['other']
+    options = {'solve_eqs': True}
     no_use = ['RealFloat.__add__', 'RealFloat.__neg__']       # verified against the bodies (inlined), not the contracts
     note = 'the sign of an exact zero difference is only specified for operands that carry a signed zero (RealFloat, float)'
 
@@ -433,6 +437,7 @@ class RealFloat___rsub__(Contract):
     returns = 'RealFloat | float'
     properties = ['C05']
     split = ['other']
+    options = {'solve_eqs': True}
     no_use = ['RealFloat.__add__', 'RealFloat.__neg__']       # verified against the bodies (inlined), not the contracts
 
     def post(self, other, result):
@@ -468,6 +473,7 @@ class RealFloat___rmul__(Contract):
     returns = 'RealFloat | float'
     properties = ['C05']
     split = ['other']
+    options = {'solve_eqs': True}
 
     def post(self, other, result):
         r = result
